@@ -186,6 +186,16 @@ def bytesrc_pos_nonneg_statement : Prop :=
     (specRun p (LSt.init input stop)).2.err = none →
     0 ≤ (specRun p (LSt.init input stop)).2.nextPos.1
 
+/-- `newLit` (since cb62b3c: `utf8.AppendRune(p.litBuf[:0], r)`) never receives the replacement rune
+    of an invalid byte: when `DecodeRune` answers `(RuneError, 1)`, `rune` raises "invalid UTF-8
+    encoding" and returns `runeEOF`, whose literal is empty.  So the encoding written by `newLit` is
+    always that of a validly decoded rune — the bytes it had in the input (checked against the
+    source bytes by the harness, `c07NewLitBytes`). -/
+theorem invalid_byte_never_reaches_newLit (a : LSt) (ha : a.err = none)
+    (hd : decodeRune a.rest = (runeError, 1)) :
+    (LSt.runeDecode a).r = runeEOF ∧ (LSt.runeDecode a).err ≠ none :=
+  runeDecode_invalid a ha hd
+
 /-! ## the five fixed defects: the old witnesses now agree on the model -/
 
 /-- `r := rune(); zshNumRange()` -/
